@@ -32,7 +32,7 @@ From TLV Require Import Base.Shape Base.PyList Base.Tensor Base.BigSum Model.Bas
   Proofs.TenalgProofsOuter Proofs.TenalgProofsSample Proofs.TenalgProofsSort Proofs.TenalgProofsEinsumVec Proofs.TenalgProofsMulti Proofs.TenalgProofsEinsumInner
   Proofs.TenalgProofsEinsumMttkrp Proofs.TenalgProofsEinsumKR Proofs.TenalgProofsEinsumOuter Proofs.TenalgProofsMultiGen Proofs.TenalgProofsMultiGen2 Proofs.TenalgProofsMemory
   Proofs.TenalgProofsTdotE Proofs.TenalgProofsTdotC Proofs.TenalgProofsEinsumMulti Proofs.TenalgProofsValidate Proofs.TenalgProofsTdotInner Proofs.TenalgProofsKRBcast Proofs.TenalgProofsNegMode Proofs.TenalgProofsNegMulti Proofs.TenalgProofsReject Proofs.TenalgProofsRepeat Proofs.TenalgProofsEq Proofs.TenalgProofsAnyModes Proofs.TenalgProofsW1
-  Proofs.TenalgProofsSrc Proofs.TenalgProofsDefault Proofs.TenalgProofsMemW1.
+  Proofs.TenalgProofsSrc Proofs.TenalgProofsDefault Proofs.TenalgProofsMemW1 Proofs.TenalgProofsTdotRepeat.
 Import ListNotations.
 
 Definition ring_of {F} (Op : rops F) := ring_theory (r0 Op) (r1 Op) (radd Op) (rmul Op) (rsub Op) (ropp Op) (@eq F).
@@ -1072,3 +1072,19 @@ Theorem C02_source_loop_principle : forall (S X R : Type) (step : S -> X -> res 
   forall l st, rbind (fold_res step l st) k = model l st.
 Proof. exact @fold_res_sim. Qed.
 Print Assumptions C02_source_loop_principle.
+
+(* core tensordot when a mode of one tensor is named twice among its contracted and batched modes (a request C02_tensordot_core
+   excludes): batch ++ free ++ contracted is then not a permutation of the axes and the routine rejects, for every operand pair
+   - FULL.  (np.transpose raises; the einsum backend instead takes np.einsum's diagonal - no textbook value, correspondence only:
+   Example below.) *)
+Theorem C02_tensordot_core_rejects_repeated_mode : forall (F : Type) (Op : rops F) (A B : tensor F) (m1 m2 b1 b2 : list nat),
+  ~ NoDup (m1 ++ b1) \/ ~ NoDup (m2 ++ b2) -> tensordot Op A B m1 m2 b1 b2 = Err.
+Proof. exact @tensordot_core_rejects_repeated. Qed.
+Print Assumptions C02_tensordot_core_rejects_repeated_mode.
+
+Example C02_nonvacuous_tensordot_repeated_mode :
+  let A : tensor Z := mk [2; 2] [1; 2; 3; 4]%Z in let B : tensor Z := mk [2; 2] [1; 0; 0; 1]%Z in
+  ~ NoDup ([0; 0] ++ @nil nat) /\ validate_modes (shape A) (shape B) [0; 0] [0; 1] = true /\
+  tensordot ZR A B [0; 0] [0; 1] [] [] = Err /\
+  tensordot_e ZR A B [0; 0] [0; 1] [] [] = Ok (mk [2] [4; 6]%Z).
+Proof. exact tensordot_repeated_nonvacuous. Qed.
